@@ -7,6 +7,7 @@ import (
 	"os"
 	"os/exec"
 	"path/filepath"
+	"regexp"
 	"sort"
 	"strings"
 	"time"
@@ -47,6 +48,7 @@ type C02Exec struct {
 	History  uint64 `json:"engine_history_seed,omitempty"` // !=0: engine reused after a history
 	ReuseTpl bool   `json:"reuse_parsed_template,omitempty"`
 	EP       int    `json:"entry_point"`
+	Writer   int    `json:"writer_kind,omitempty"` // destination of the FRender forms (see WriterKind)
 	Jump     int64  `json:"clock_jump_s,omitempty"`
 	Again    bool   `json:"repeat,omitempty"`
 	CLI      bool   `json:"cli,omitempty"`
@@ -212,6 +214,8 @@ func (x *c02Run) exec(ex *C02Exec) Res {
 	}
 	simrt.SetMapOrder(ex.Order, ex.Param)
 	simrt.SetClock(t0.Add(time.Duration(ex.Jump) * time.Second))
+	WriterKind = ex.Writer
+	defer func() { WriterKind = 0 }()
 	res := Run(ex.EP, e, tpl, x.src, b, nil)
 	if ex.Again {
 		simrt.SetMapOrder(ex.Order, ex.Param)
@@ -279,6 +283,10 @@ func c02Plan(r *Rng, cs *C02Case) (canon *C02Exec, vars []struct {
 		ep := ep
 		add("entry-point", func(e *C02Exec) { e.EP = ep })
 	}
+	for wk := 1; wk <= 3; wk++ {
+		wk := wk
+		add("entry-point", func(e *C02Exec) { e.EP, e.Writer = pick(r, []int{EPFRender, EPParseAndFRender}), wk })
+	}
 	if !strings.Contains(cs.Source, "now") {
 		add("clock", func(e *C02Exec) { e.Jump = int64(r.Range(1, 400000000)) })
 	}
@@ -295,6 +303,7 @@ func c02Plan(r *Rng, cs *C02Case) (canon *C02Exec, vars []struct {
 				e.History, e.ReuseTpl = h, r.Chance(0.5)
 			}
 			e.EP = r.Intn(NumEP)
+			e.Writer = r.Intn(4)
 			e.Again = r.Chance(0.3)
 			if !strings.Contains(cs.Source, "now") && r.Chance(0.5) {
 				e.Jump = int64(r.Range(1, 400000000))
@@ -337,7 +346,7 @@ func c02Find(c *Ctx, cs *C02Case, r *Rng, out *CaseOut, wantSig string) []c02Fai
 			if c != nil {
 				c.count("fault:fresh-process", 1)
 			}
-			if addrRe.ReplaceAllString(cr, "A") != addrRe.ReplaceAllString(base.Key(), "A") {
+			if addrRe.ReplaceAllString(cr, "A") != addrRe.ReplaceAllString(base.Key(), "A") && !addressOnly(cs, x.cli, cr, base.Key(), nil, true) {
 				sig := "diverge|fresh-process|" + c02Construct(u)
 				if wantSig == "" || strings.HasPrefix(wantSig, "diverge|fresh-process|") {
 					seen[sig] = true
@@ -372,7 +381,8 @@ func c02Find(c *Ctx, cs *C02Case, r *Rng, out *CaseOut, wantSig string) []c02Fai
 		}
 		if !same {
 			kind := "diverge"
-			if base.Panic == "" && res.Panic == "" && addrRe.ReplaceAllString(res.Key(), "A") == addrRe.ReplaceAllString(base.Key(), "A") {
+			if base.Panic == "" && res.Panic == "" && (addrRe.ReplaceAllString(res.Key(), "A") == addrRe.ReplaceAllString(base.Key(), "A") ||
+				(!v.ex.CLI && addressOnly(cs, x.cli, res.Key(), base.Key(), v.ex, false))) {
 				kind = "address-in-output"
 			}
 			dim := v.dim
@@ -404,6 +414,55 @@ func c02Find(c *Ctx, cs *C02Case, r *Rng, out *CaseOut, wantSig string) []c02Fai
 	return fails
 }
 
+var hexRun = regexp.MustCompile(`[0-9a-fx]+`)
+
+// sameSkeleton: the two strings differ only inside runs of hex-ish characters.
+func sameSkeleton(a, b string) bool {
+	return hexRun.ReplaceAllString(a, "#") == hexRun.ReplaceAllString(b, "#")
+}
+
+// nestedPtrFree returns a copy of the case whose bindings have every pointer
+// below the top level replaced by its pointee (nil if there is none to replace).
+func nestedPtrFree(cs *C02Case) *C02Case {
+	c := *cs
+	c.Env = cloneEnv(cs.Env)
+	before := mustJSON(c.Env)
+	for _, v := range c.Env.Vals {
+		for _, ch := range v.A {
+			stripPtr(ch)
+		}
+		if v.T == "struct" {
+			v.B = false
+		}
+	}
+	if mustJSON(c.Env) == before {
+		return nil
+	}
+	return &c
+}
+
+// addressOnly decides whether a divergence between two result keys is the known
+// "pointer nested inside a fmt-printed composite" effect even though a filter
+// has mangled the printed address beyond recognition: the keys differ only inside
+// hex-ish runs AND the divergence vanishes when the nested pointers are replaced
+// by their pointees (same template, same execution settings).
+func addressOnly(cs *C02Case, cli string, a, b string, ex *C02Exec, child bool) bool {
+	if !sameSkeleton(a, b) {
+		return false
+	}
+	c2 := nestedPtrFree(cs)
+	if c2 == nil {
+		return false
+	}
+	x2 := newC02Run(c2, cli)
+	base2 := x2.exec(&C02Exec{Order: simrt.OrderAsc, EP: EPRender})
+	if child {
+		k, ok := x2.execChild()
+		return ok && k == base2.Key()
+	}
+	return x2.exec(ex).Key() == base2.Key()
+}
+
 // addrClass says where in the result the heap address shows up: inside a
 // composite rendered by fmt (struct, map, nested slice), in output or in error
 // text, or as a bare pointer.
@@ -414,7 +473,7 @@ func addrClass(a, b Res) string {
 	}
 	loc := addrRe.FindStringIndex(s)
 	if loc == nil {
-		return where + "|?"
+		return where + "|pointer-inside-fmt-composite" // mangled by a later filter; established by addressOnly
 	}
 	depth := 0
 	for _, ch := range s[:loc[0]] {
